@@ -321,12 +321,14 @@ Proof.
                        (fun a : revid * option revno => match snd a with Some _ => true | None => false end) vs) else vs, None)
                   | inr e => ([], Some e) end) = Some StartNotLinearAncestor -> u).
   { intros u. unfold generate_all.
+    set (end' := match start, end_ with Some _, None => br_tip b | _, _ => end_ end).
     destruct delayed.
-    - destruct (linear_view b start end_ excl) as [lin err].
+    - destruct (linear_view b start end' excl) as [lin err].
       destruct (split_at_merge (br_g b) lin) as [ini [mr|]].
-      + destruct start as [s|]; [destruct end_ as [e|]; [destruct (is_ancestor (br_g b) s e)|]|]; discriminate.
+      + destruct (match start, end' with Some s, Some e => negb (is_ancestor (br_g b) s e) | _, _ => false end);
+          discriminate.
       + destruct err; discriminate.
-    - destruct (excl && match end_ with None => true | Some _ => false end); discriminate. }
+    - discriminate. }
   destruct (match end_ with
             | Some e => if oeqb start end_ && (negb gen_merge || negb (has_merges (br_g b) e)) then Some e else None
             | None => None end); [discriminate|].
@@ -343,17 +345,6 @@ Proof.
       * destruct (lin_walk b None excl (lefthand_opt (br_g b) (Some e))). rewrite orb_true_r in El. discriminate.
       * discriminate.
 Qed.
-
-(* the witness: r3 = 1.1.1 and r4 = 1.2.1 are two branches off revision 1 *)
-Definition leak_branch : branch := mkBr [[]; [0]; [1]; [0]; [0]; [2; 3]; [5; 4]] (Some 6) [].
-
-Theorem internal_error_leaks :
-  wf_dag (br_g leak_branch) = true /\
-  revision_id_to_dotted_revno leak_branch (Some 3) = Ok [1; 1; 1] /\
-  revision_id_to_dotted_revno leak_branch (Some 4) = Ok [1; 2; 1] /\
-  snd (log_revisions leak_branch (Some 3) (Some 4) false 1 0 false) = Some StartNotLinearAncestor /\
-  snd (log_revisions leak_branch (Some 3) (Some 4) false 0 0 false) = Some StartNotInHistory.
-Proof. vm_compute. repeat split. Qed.
 
 (* ---- the linear path and the level filter agree entry by entry ------------------------------ *)
 
@@ -438,3 +429,126 @@ Example ex_log_nested :
   map v_id (fst (calc_view ex_nested (Some 1) (Some 7) false false true false)) = [7; 2; 1] /\
   lefthand (br_g ex_nested) 7 = [7; 2] ++ 1 :: [0].
 Proof. vm_compute. repeat split. Qed.
+
+(* ---- no internal exception escapes ------------------------------------------------------------ *)
+
+(* two revisions on one development line (same base revno, same branch number):
+   the lower numbered one is on the left-hand history of the higher numbered one *)
+Definition lines_ok (b : branch) : Prop :=
+  forall es ee a k x y, In es (merge_sorted (br_g b) (br_tip b)) -> In ee (merge_sorted (br_g b) (br_tip b)) ->
+  e_revno es = [a; k; x] -> e_revno ee = [a; k; y] -> x <= y ->
+  In (e_id es) (lefthand (br_g b) (e_id ee)).
+
+Lemma dict_get_entry (l : list ms4) r d : NoDup (map m_id l) ->
+  dict_get r (revno_map_of l) = Some d -> exists e, In e l /\ m_id e = r /\ m_revno e = d.
+Proof.
+  intros N H. rewrite (revno_map_of_nodup l N) in H.
+  assert (Nk : NoDup (keys (map entry_kv l))) by (unfold keys; rewrite map_map; exact N).
+  apply (dict_get_In _ _ _ Nk) in H. apply in_map_iff in H as [e [E He]].
+  exists e. unfold entry_kv in E. injection E as <- <-. repeat split. exact He.
+Qed.
+
+Lemma nth_error_skipn' {A} (l : list A) n i : nth_error (skipn n l) i = nth_error l (n + i).
+Proof.
+  revert l. induction n as [|n IH]; intros l; [reflexivity|].
+  destruct l as [|x l]; [destruct i; reflexivity | apply IH].
+Qed.
+
+Section NoLeak.
+  Variable b : branch.
+  Variable t : revid.
+  Hypothesis W : wf_dag (br_g b) = true.
+  Hypothesis T : br_tip b = Some t.
+  Hypothesis L : t < length (br_g b).
+  Hypothesis P : lefthand_present (br_g b) t = true.
+
+  (* what a dotted revno says about a revision *)
+  Lemma dotted_cases s d : revision_id_to_dotted_revno b (Some s) = Ok d ->
+    (exists n, d = [S n] /\ nth_error (history b) n = Some s) \/
+    (~ In s (lh b) /\ length d = 3 /\
+     exists e, In e (merge_sorted (br_g b) (br_tip b)) /\ e_id e = s /\ e_revno e = d).
+  Proof.
+    unfold revision_id_to_dotted_revno.
+    destruct (revision_id_to_revno b (Some s)) as [n|err] eqn:E.
+    - intros H. injection H as <-. left. destruct n as [|n].
+      + exfalso. unfold revision_id_to_revno in E. destruct (index_of s (lh b)) as [i|] eqn:Ei; [|discriminate].
+        apply index_of_nth in Ei. assert (i < length (lh b)) by (apply nth_error_Some; congruence).
+        injection E as E. unfold last_revno in E. lia.
+      + exists n. split; [reflexivity | apply (revision_id_to_revno_spec b s n W); exact E].
+    - assert (Nm : ~ In s (lh b)).
+      { unfold revision_id_to_revno in E. destruct (index_of s (lh b)) eqn:X; [discriminate|].
+        apply index_of_none_notin. exact X. }
+      unfold revno_map. rewrite iter_all.
+      destruct (dict_get s (revno_map_of (merge_sort (br_g b) (br_tip b)))) as [d'|] eqn:Ed; [|discriminate].
+      intros H. injection H as <-. right. split; [exact Nm|].
+      destruct (dict_get_entry (merge_sort (br_g b) (br_tip b)) s d') as [e4 [He4 [Ei Er]]]; [|exact Ed|].
+      { rewrite merge_sort_ids. apply merge_sorted_NoDup. exact W. }
+      assert (He : In (fst e4) (merge_sorted (br_g b) (br_tip b))).
+      { rewrite <- (with_eom_fst (br_g b) (merge_sorted (br_g b) (br_tip b))). apply in_map. exact He4. }
+      assert (He' := He). rewrite T in He'.
+      destruct (merge_sorted_shape (br_g b) t W L P (fst e4) He') as [[Hin _]|[_ L3]].
+      + exfalso. apply Nm. unfold lh. rewrite T. cbn [lefthand_opt]. rewrite <- Ei. exact Hin.
+      + split; [rewrite <- Er; exact L3|]. exists (fst e4). repeat split; assumption.
+  Qed.
+
+  Lemma mainline_order ns ne s e : ns <= ne ->
+    nth_error (history b) ns = Some s -> nth_error (history b) ne = Some e ->
+    In s (lefthand (br_g b) e).
+  Proof.
+    intros Le Hs He. unfold history in *.
+    assert (Ls : ns < length (lh b)) by (rewrite <- rev_length; apply nth_error_Some; congruence).
+    assert (Lee : ne < length (lh b)) by (rewrite <- rev_length; apply nth_error_Some; congruence).
+    rewrite nth_error_rev in Hs, He by assumption.
+    unfold lh in *. rewrite T in *. cbn [lefthand_opt] in *.
+    rewrite (lefthand_skipn (br_g b) W _ t e He).
+    set (ie := length (lefthand (br_g b) t) - S ne) in *.
+    set (is_ := length (lefthand (br_g b) t) - S ns) in *.
+    assert (X : nth_error (skipn ie (lefthand (br_g b) t)) (is_ - ie) = Some s).
+    { rewrite nth_error_skipn'. replace (ie + (is_ - ie)) with is_ by (unfold ie, is_; lia). exact Hs. }
+    eapply nth_error_In. exact X.
+  Qed.
+
+  Theorem obvious_is_linear s end_ excl : lines_ok b ->
+    is_obvious_ancestor b (Some s) end_ = true -> snd (linear_view b (Some s) end_ excl) = None.
+  Proof.
+    intros LO O.
+    assert (Hin : In s (lefthand_opt (br_g b) (match end_ with Some e => Some e | None => br_tip b end))).
+    { unfold is_obvious_ancestor in O. destruct end_ as [e|].
+      - destruct (revision_id_to_dotted_revno b (Some s)) as [sd|] eqn:Es; [|discriminate].
+        destruct (revision_id_to_dotted_revno b (Some e)) as [ed|] eqn:Ee; [|discriminate].
+        destruct (dotted_cases s sd Es) as [[ns [-> Hs]]|[_ [Ls3 [es [Hes [Eis Ers]]]]]];
+        destruct (dotted_cases e ed Ee) as [[ne [-> He]]|[_ [Le3 [ee [Hee [Eie Ere]]]]]].
+        + cbn [lefthand_opt]. apply Nat.leb_le in O. apply (mainline_order ns ne s e); [lia | exact Hs | exact He].
+        + destruct ed as [|? [|? [|? [|? ?]]]]; cbn in Le3; try lia; discriminate.
+        + destruct sd as [|? [|? [|? [|? ?]]]]; cbn in Ls3; try lia; discriminate.
+        + destruct sd as [|s0 [|s1 [|s2 [|? ?]]]]; cbn in Ls3; try lia.
+          destruct ed as [|e0 [|e1 [|e2 [|? ?]]]]; cbn in Le3; try lia.
+          destruct ((s0 =? e0) && (s1 =? e1)) eqn:C; [|discriminate].
+          apply andb_true_iff in C as [C0 C1]. apply Nat.eqb_eq in C0, C1. subst e0 e1.
+          apply Nat.leb_le in O. cbn [lefthand_opt]. rewrite <- Eis, <- Eie.
+          apply (LO es ee s0 s1 s2 e2 Hes Hee Ers Ere O).
+      - destruct (revision_id_to_dotted_revno b (Some s)) as [sd|] eqn:Es; [|discriminate].
+        destruct (dotted_cases s sd Es) as [[ns [-> Hs]]|[_ [Ls3 _]]].
+        + rewrite T. cbn [lefthand_opt]. apply in_rev. fold (lefthand_opt (br_g b) (Some t)).
+          rewrite <- T. fold (lh b). fold (history b). eapply nth_error_In. exact Hs.
+        + destruct sd as [|? [|? [|? [|? ?]]]]; cbn in Ls3; try lia; discriminate. }
+    unfold linear_view.
+    assert (G : forall l, In s l -> snd (lin_walk b (Some s) excl l) = true).
+    { induction l as [|r l IH]; [contradiction|]. intros H. cbn [lin_walk oeqb].
+      destruct (s =? r) eqn:E; [reflexivity|]. apply Nat.eqb_neq in E.
+      destruct H as [H|H]; [congruence|]. specialize (IH H).
+      destruct (lin_walk b (Some s) excl l). exact IH. }
+    specialize (G _ Hin).
+    destruct end_ as [e|]; destruct (lin_walk b (Some s) excl _) as [vs found]; cbn [snd] in *; rewrite G; reflexivity.
+  Qed.
+
+  (* _calc_view_revisions never ends with the internal _StartNotLinearAncestor *)
+  Theorem calc_view_no_internal_error start end_ forward gen_merge delayed excl : lines_ok b ->
+    snd (calc_view b start end_ forward gen_merge delayed excl) <> Some StartNotLinearAncestor.
+  Proof.
+    intros LO H.
+    destruct (calc_view_internal_error_guarded b start end_ forward gen_merge delayed excl H)
+      as [_ [_ [[s ->] [O E]]]].
+    rewrite (obvious_is_linear s end_ excl LO O) in E. discriminate.
+  Qed.
+End NoLeak.
